@@ -1,1 +1,6 @@
 import SmtpV.Props.C16
+#print axioms SmtpV.Props.C16.C16_partition_independent
+#print axioms SmtpV.Props.C16.C16_wire_terminated
+#print axioms SmtpV.Props.C16.C16_roundtrip
+#print axioms SmtpV.Props.C16.C16_roundtrip_progress
+#print axioms SmtpV.Props.C16.C16_second_close
